@@ -347,4 +347,8 @@ class defaultdict2(defaultdict):
             self[key] = v
             return v
         except KeyError:
-            return super(defaultdict2, self).__missing__(key)
+            # Return the factory default without storing it: a lookup must
+            # not change what `key in d` answers for later calls
+            if self.default_factory is None:
+                raise
+            return self.default_factory()
